@@ -111,7 +111,7 @@ def judge_variant(g, ops, sweeps, lines, verdict, init=None):
 def run(tier, seed, replay):
     t = qv.Timer()
     rng = qv.Rng(seed)
-    gate = {'ok': True, 'obligations': 0, 'discharged': 0, 'failed': None, 'axioms': [], 'checker_cmd': '', 'gen': {}}
+    gate = common.proof_gate('C17', ['Model/Flush.v', 'Proofs/FlushProps.v', 'Props/C17.v'])
     rc, out = qv.harness_build()
     if rc != 0:
         print(out[-3000:])
